@@ -28,6 +28,9 @@ try:
     # RUN.sh may refer to its own location; keep the original layout too
     os.makedirs(os.path.join(wt, 'out', name), exist_ok=True)
     shutil.copytree(demo, os.path.join(wt, 'out', name, 'demo'))
+    orig = os.path.basename(os.path.normpath(src))
+    if orig != name:   # the demo may name its own directory as the author knew it
+        shutil.copytree(demo, os.path.join(wt, 'out', orig, 'demo'))
     runcmd = 'bash out/%s/demo/RUN.sh' % name
     rc, out = sh(runcmd, cwd=wt, env=env, timeout=1200)
     res['demo_without_patch'] = rc
